@@ -2,6 +2,7 @@
   C03 — V2 packet integrity: a packet is accepted only when its signature matches its content;
   truncations and alterations are rejected outright or reduce to an explicit MD5 event.
 -/
+import Msmart.Lemmas.CodecEqLan
 import Msmart.Props.C02
 
 set_option linter.unusedSimpArgs false
@@ -160,5 +161,19 @@ theorem payload_alteration_collision (id : Nat) (ts filler frame hb' enc : Bytes
 /-! non-vacuity: the hypotheses are met by a concrete authentic packet -/
 example : (authentic 7 (Py.zeros 8) (Py.zeros 12) [1, 2, 3]).length = 72 := by
   rw [authentic_length _ _ _ _ rfl rfl (by rw [encryptAes_length]; decide), encryptAes_length]; rfl
+
+
+/-! ### about the code as translated from the source text (tie by translation, §3.1b) -/
+
+/-- **C03 about the translated `_Packet.decode`**: it IS the model's `packetDecode` on every byte string, so every
+    theorem of this file (exact acceptance condition, truncation, tag / marker / length alterations, the collision
+    reduction) is a statement about the translated code; the acceptance condition restated: -/
+theorem decode_accepts_only_signed_code (data f : Bytes) (h : Generated.Codec.packetDecode data = .ok f) :
+    ∃ enc, packetCheck data = .ok enc := by
+  rw [CodecEq.packetDecode_eq] at h; exact decode_accepts_only_signed data f h
+
+theorem marker_alteration_rejected_code (data : Bytes) (h : data.take 2 ≠ [0x5A, 0x5A]) :
+    Generated.Codec.packetDecode data = .error .protocol := by
+  rw [CodecEq.packetDecode_eq]; exact marker_alteration_rejected data h
 
 end Msmart.Props.C03
